@@ -80,6 +80,8 @@ def concretise(req):
         if req.get('extra') == 'kw':
             methods.append(dict(name='Import', **{'in': 'Req', 'out': 'Item'},
                                 http=[dict(verb='post', uri='/v1/{name=items/*}:import', body='*')]))
+            methods.append(dict(name='NonLocal', **{'in': 'Req', 'out': 'Item'},
+                                http=[dict(verb='post', uri='/v1/{name=items/*}:nonLocal', body='*')]))
         if req.get('extra') == 'xreq':
             methods.append(dict(name='Xcheck', **{'in': f'.{DEP}.DepReq', 'out': 'Item'},
                                 http=[dict(verb='post', uri='/v1/{name=items/*}:xcheck', body='*')]))
